@@ -33,7 +33,7 @@ theorem tthread_advance {s' : State} {pc : Nat} {ins : Instr}
     (hst : absAt G (sys.body th.ty) pc = some st) (habs : absStep G st ins = some st')
     {stack' : List Ref} {locs' : List (Loc × Nat)} (hstack : All2 (StackTy G s') stack' st')
     (hlocs : ∀ (loc : Loc) (x : Nat), (loc, x) ∈ locs' → ∃ sd : StubData, s'.stubs[x]? = some sd ∧ sd.loc = loc)
-    (hres : ∀ res : Res, th.result = some res → res = unfold G sys.fuel th.depth th.ty) :
+    (hres : ∀ res : Res, th.result = some res → res = specRes G sys.fuel th.depth th.ty) :
     TThread G sys s' { th with phase := nextPhase (sys.body th.ty).length (pc + 1), stack := stack',
                                locToStub := locs' } := by
   have hnext : absAt G (sys.body th.ty) (pc + 1) = some st' := by
@@ -50,13 +50,13 @@ theorem tthread_advance {s' : State} {pc : Nat} {ins : Instr}
     sub := fun pc' r hp' => by
       simp only [nextPhase] at hp'
       split at hp' <;> cases hp'
-    put := fun hp' => by
+    put := fun hp' hnf => by
       simp only [nextPhase] at hp'
       split at hp'
       · cases hp'
       · rename_i hge
         have hlen : pc + 1 = (sys.body th.ty).length := by omega
-        rw [hlen, typed_final htyped] at hnext
+        rw [hlen, typed_final_ok htyped hnf] at hnext
         cases hnext
         cases hs : stack' with
         | nil => rw [hs] at hstack; exact hstack.elim
